@@ -207,6 +207,7 @@ class _ProbeMixin:
         'update': {}, 'init': None, 'ts_menu': None, 'log_states': True,
         'log_snapshot': False, 'raise_at': None, 'payload': 0,
         'reuse_update': False, 'log_return_copy': False,
+        'schema_by_reference': False,
     }
 
     def _probe_init(self):
@@ -234,6 +235,10 @@ class _ProbeMixin:
         return new
 
     def ports_schema(self):
+        if self.parameters.get('schema_by_reference'):
+            # a process that hands out ONE persistent schema object (a
+            # class-level template, a schema kept in its parameters)
+            return self.parameters['schema']
         return copy.deepcopy(self.parameters['schema'])
 
     def initial_state(self, config=None):
